@@ -206,7 +206,10 @@ class SpecEval:
                     f = self.vc.ufun('ext.fp.%s.%s' % ({'+': 'add', '-': 'sub', '*': 'mul', '/': 'div'}[op], a.sort), [a.sort, a.sort], a.sort)
                     return V('(%s %s %s)' % (f, a.term, b.term), a.sort, a.ts)
             if a.sort == 'Str' and b.sort == 'Str' and op == '+':
-                return V('(%s %s %s)' % (self.vc.ufun('gs.concat', ['Str', 'Str'], 'Str'), a.term, b.term), 'Str', 'string')
+                from .models import str_concat
+                if self.mentions_bound(a.term) or self.mentions_bound(b.term):
+                    return V('(%s %s %s)' % (self.vc.ufun('gs.concat', ['Str', 'Str'], 'Str'), a.term, b.term), 'Str', 'string')
+                return V(str_concat(self.vc, a.term, b.term), 'Str', 'string')
             self.err('arithmetic %s on sorts %s/%s' % (op, a.sort, b.sort))
         self.err('binop ' + op)
 
@@ -393,6 +396,9 @@ class SpecEval:
         # rec: uninterpreted application + instance for fuel unfolding
         rts = resolve_type(self.prog, sd.pkg, sd.ret)
         rs = self.vc.sort_of(rts)
+        if sd.kind == 'ufun':
+            f = self.vc.ufun('ghost.' + name, [a.sort for a in argvs], rs)
+            return V('(%s %s)' % (f, ' '.join(a.term for a in argvs)) if argvs else f, rs, rts)
         f = self.vc.ufun('rec.' + name, [a.sort for a in argvs], rs)
         terms = tuple(a.term for a in argvs)
         app = '(%s %s)' % (f, ' '.join(terms)) if terms else f
